@@ -26,6 +26,7 @@ type Sched struct {
 	Skipped  []string // script entries abandoned after a timeout (desync), for diagnosis
 	Log      []string // keys in the order they were passed (all arrivals)
 	KeepLog  bool
+	arrived  map[string]bool // keys at which some goroutine has arrived (whether or not it has passed yet)
 }
 
 func NewSched(script []string, seed int64) *Sched {
@@ -41,6 +42,10 @@ func (s *Sched) Arrive(key string) {
 	if s.KeepLog && len(s.Log) < 4096 {
 		s.Log = append(s.Log, key)
 	}
+	if s.arrived == nil {
+		s.arrived = map[string]bool{}
+	}
+	s.arrived[key] = true
 	idx := -1
 	for i := s.pos; i < len(s.script); i++ {
 		if s.script[i] == key {
@@ -89,6 +94,18 @@ func (s *Sched) Arrive(key string) {
 		s.Followed++
 	}
 	s.mu.Unlock()
+}
+
+// Arrived reports whether some goroutine has arrived at key (it may still be waiting there).
+// Used by environment goroutines (e.g. a context canceller) whose scripted step presupposes that
+// another goroutine is parked at a given gate.
+func (s *Sched) Arrived(key string) bool {
+	if s == nil {
+		return false
+	}
+	s.mu.Lock()
+	defer s.mu.Unlock()
+	return s.arrived[key]
 }
 
 // Stats returns (followed, desync, remaining).
